@@ -853,115 +853,137 @@ pub fn apply_plan(plan: &mut Plan, options: &ApplyOptions) -> Result<()> {
         }
     }
 
-    // STEP 4: Generate comprehensive patch after all changes are complete
-    if options.create_backups {
-        state.log("Creating comprehensive patch backup")?;
+    // Everything after the renames (reverse patches, stored plan, history entry) is one step
+    // with the history entry as its commit point. If any of it fails, the tree must not stay
+    // renamed with no record of it and nothing to undo: the renames are rolled back, exactly as
+    // for a failing rename, and the error is returned.
+    let recorded = (|| -> Result<()> {
+        // STEP 4: Generate comprehensive patch after all changes are complete
+        if options.create_backups {
+            state.log("Creating comprehensive patch backup")?;
 
-        // Generate individual reverse patch files
-        if let Err(e) = generate_reverse_patches(plan, options, &state, &original_contents) {
-            state.log(&format!("Failed to create comprehensive patch: {}", e))?;
-            if !options.force {
-                return Err(e);
+            // Generate individual reverse patch files
+            if let Err(e) = generate_reverse_patches(plan, options, &state, &original_contents) {
+                state.log(&format!("Failed to create comprehensive patch: {}", e))?;
+                if !options.force {
+                    return Err(e);
+                }
+            }
+
+            state.log("Comprehensive patch created successfully")?;
+        }
+
+        // Commit to git if requested
+        if options.commit {
+            state.log("Creating git commit")?;
+
+            let output = std::process::Command::new("git")
+                .args(["add", "-A"])
+                .output()?;
+
+            if !output.status.success() {
+                let error = String::from_utf8_lossy(&output.stderr);
+                return Err(anyhow!("Failed to stage changes: {}", error));
+            }
+
+            let commit_message = format!(
+                "renamify: rename {} -> {} (#{}))",
+                plan.search, plan.replace, plan.id
+            );
+
+            let output = std::process::Command::new("git")
+                .args(["commit", "-m", &commit_message])
+                .output()?;
+
+            if !output.status.success() {
+                let error = String::from_utf8_lossy(&output.stderr);
+                return Err(anyhow!("Failed to commit changes: {}", error));
+            }
+
+            state.log(&format!("Created git commit: {}", commit_message))?;
+        }
+
+        // Record in history
+        state.log("Recording in history")?;
+
+        // Calculate checksums for all affected files
+        let mut affected_files = HashMap::new();
+        for path in &state.content_edits_applied {
+            if path.exists() {
+                let checksum = calculate_checksum(path)?;
+                affected_files.insert(path.clone(), checksum);
             }
         }
 
-        state.log("Comprehensive patch created successfully")?;
-    }
-
-    // Commit to git if requested
-    if options.commit {
-        state.log("Creating git commit")?;
-
-        let output = std::process::Command::new("git")
-            .args(["add", "-A"])
-            .output()?;
-
-        if !output.status.success() {
-            let error = String::from_utf8_lossy(&output.stderr);
-            return Err(anyhow!("Failed to stage changes: {}", error));
+        // Also include renamed files
+        for (_, to) in &state.renames_performed {
+            if to.exists() && to.is_file() {
+                let checksum = calculate_checksum(to)?;
+                affected_files.insert(to.clone(), checksum);
+            }
         }
 
-        let commit_message = format!(
-            "renamify: rename {} -> {} (#{}))",
-            plan.search, plan.replace, plan.id
+        // Pass the correct backup path to history entry
+        // If backup_dir already includes the plan_id, use it as-is
+        // Otherwise, append the plan_id
+        let backups_path = if options.backup_dir.ends_with(&plan.id) {
+            options.backup_dir.clone()
+        } else {
+            options.backup_dir.join(&plan.id)
+        };
+
+        let history_entry = create_history_entry(
+            plan,
+            affected_files,
+            state.renames_performed.clone(),
+            backups_path,
+            None, // Not a revert
+            None, // Not a redo
         );
 
-        let output = std::process::Command::new("git")
-            .args(["commit", "-m", &commit_message])
-            .output()?;
+        // Determine the .renamify directory location
+        // If backup_dir is .renamify/backups/plan_id, we want .renamify
+        // If backup_dir is .renamify/backups, we want .renamify
+        let renamify_dir = if options.backup_dir.ends_with(&plan.id) {
+            // backup_dir is .renamify/backups/plan_id
+            options.backup_dir
+                .parent() // .renamify/backups
+                .and_then(|p| p.parent()) // .renamify
+                .unwrap_or_else(|| Path::new(".renamify"))
+        } else {
+            // backup_dir is .renamify/backups
+            options.backup_dir
+                .parent() // .renamify
+                .unwrap_or_else(|| Path::new(".renamify"))
+        };
 
-        if !output.status.success() {
-            let error = String::from_utf8_lossy(&output.stderr);
-            return Err(anyhow!("Failed to commit changes: {}", error));
+        // Store the complete plan (undo and redo read it) BEFORE the history entry is written: the
+        // entry is the commit point of the whole operation, and an entry whose plan is missing could
+        // not be undone.
+        let plans_dir = renamify_dir.join("plans");
+        fs::create_dir_all(&plans_dir)?;
+        let plan_path = plans_dir.join(format!("{}.json", plan.id));
+        let plan_json = serde_json::to_string_pretty(plan)?;
+        if let Err(e) = fs::write(&plan_path, plan_json) {
+            let _ = fs::remove_file(&plan_path);
+            return Err(e.into());
         }
+        state.log(&format!("Stored plan at {}", plan_path.display()))?;
 
-        state.log(&format!("Created git commit: {}", commit_message))?;
-    }
-
-    // Record in history
-    state.log("Recording in history")?;
-
-    // Calculate checksums for all affected files
-    let mut affected_files = HashMap::new();
-    for path in &state.content_edits_applied {
-        if path.exists() {
-            let checksum = calculate_checksum(path)?;
-            affected_files.insert(path.clone(), checksum);
+        let mut history = History::load(renamify_dir)?;
+        if let Err(e) = history.add_entry(history_entry) {
+            let _ = fs::remove_file(&plan_path);
+            return Err(e);
         }
+        Ok(())
+    })();
+    if let Err(e) = recorded {
+        state.log(&format!("Error after the rename phase: {}", e))?;
+
+        rollback(&mut state)?;
+
+        return Err(e);
     }
-
-    // Also include renamed files
-    for (_, to) in &state.renames_performed {
-        if to.exists() && to.is_file() {
-            let checksum = calculate_checksum(to)?;
-            affected_files.insert(to.clone(), checksum);
-        }
-    }
-
-    // Pass the correct backup path to history entry
-    // If backup_dir already includes the plan_id, use it as-is
-    // Otherwise, append the plan_id
-    let backups_path = if options.backup_dir.ends_with(&plan.id) {
-        options.backup_dir.clone()
-    } else {
-        options.backup_dir.join(&plan.id)
-    };
-
-    let history_entry = create_history_entry(
-        plan,
-        affected_files,
-        state.renames_performed.clone(),
-        backups_path,
-        None, // Not a revert
-        None, // Not a redo
-    );
-
-    // Determine the .renamify directory location
-    // If backup_dir is .renamify/backups/plan_id, we want .renamify
-    // If backup_dir is .renamify/backups, we want .renamify
-    let renamify_dir = if options.backup_dir.ends_with(&plan.id) {
-        // backup_dir is .renamify/backups/plan_id
-        options.backup_dir
-            .parent() // .renamify/backups
-            .and_then(|p| p.parent()) // .renamify
-            .unwrap_or_else(|| Path::new(".renamify"))
-    } else {
-        // backup_dir is .renamify/backups
-        options.backup_dir
-            .parent() // .renamify
-            .unwrap_or_else(|| Path::new(".renamify"))
-    };
-
-    let mut history = History::load(renamify_dir)?;
-    history.add_entry(history_entry)?;
-
-    // Store the complete plan for redo functionality
-    let plans_dir = renamify_dir.join("plans");
-    fs::create_dir_all(&plans_dir)?;
-    let plan_path = plans_dir.join(format!("{}.json", plan.id));
-    let plan_json = serde_json::to_string_pretty(plan)?;
-    fs::write(&plan_path, plan_json)?;
-    state.log(&format!("Stored plan at {}", plan_path.display()))?;
 
     state.log("Apply completed successfully")?;
     Ok(())
